@@ -38,7 +38,7 @@ theorem traffic_compiled_decides_as_written (S : Sem δ) (hS : MatchSetSem S) (g
     (hp : trafficPipeline g rs = some out) (hc : compiledDecision S out fb must = some d) :
     d = firstMatchAst (userSem S g true) rs fb must := by
   rw [trafficPipeline_eq] at hp
-  have h := pipeline_core S g true rs out hwf hp (fun E _ => emptyOk_of_false S hS.emptyVal E)
+  have h := pipeline_core S g true rs out hwf hp
   rw [compiledDecision_eq S hS.guard out fb must h.2 d hc, h.1]
 
 /-- **DNS response routing** (dat → merge-and-sort → dedup, no alias stage). -/
@@ -47,7 +47,7 @@ theorem dns_response_compiled_decides_as_written (S : Sem δ) (hS : MatchSetSem 
     (hp : dnsPipeline g rs = some out) (hc : compiledDecision S out fb must = some d) :
     d = firstMatchAst (userSem S g false) rs fb must := by
   rw [dnsPipeline_eq] at hp
-  have h := pipeline_core S g false rs out hwf hp (fun E _ => emptyOk_of_false S hS.emptyVal E)
+  have h := pipeline_core S g false rs out hwf hp
   rw [compiledDecision_eq S hS.guard out fb must h.2 d hc, h.1]
 
 /-- **DNS request routing.** The request matcher is compiled from the rules `SplitRequestRules`
@@ -61,47 +61,40 @@ theorem dns_request_compiled_decides_as_written (S : Sem δ) (hS : MatchSetSem S
     d = firstMatchAst (userSem (withCat S .dns) g false) rs fb must := by
   rw [dnsPipeline_eq] at hp
   have h := pipeline_core (withCat S .dns) g false rs out hwf hp
-    (fun E _ => emptyOk_of_false (withCat S .dns) hS.emptyVal E)
   have hsplit := splitCat_spec S .dns out q hs h.2
   rw [compiledDecision_eq S hS.guard q fb must hsplit.2 d hc, hsplit.1, h.1]
 
 /-! ## Internal selectors (`sub`/`node`/`subnode`, compiled by `daedns.compileMatcher`) -/
 
-/-- The statement one would like: the category's rules after normalisation decide as written,
-for every `Sem` (in particular `emptyVal = true`: a selector without parameters is a catch-all). -/
-def internal_selectors_decide_as_written_full : Prop :=
-  ∀ (S : Sem Nat) (g : Geo) (c : Cat) (rs out q : Prog) (fb : Nat) (must : Bool), ParserWF rs →
-    dnsPipeline g rs = some out → splitCat c out = some q →
-    firstMatchAst S q fb must = firstMatchAst (userSem (withCat S c) g false) rs fb must
-
-/-- **Proved part**: it holds whenever no function is left without parameters by the geodata
-expansion (or such calls mean `false`).  What is missing for the full statement: `compileMatcher`
-does not go through `RulesBuilder.Apply`, so `node(geosite: <empty category>)` becomes the
-catch-all `node()` instead of a build error (see `internal_selectors_full_is_false`). -/
-theorem internal_selectors_decide_as_written_partial (S : Sem δ) (g : Geo) (c : Cat) (rs out q : Prog)
+/-- **Internal selectors, full strength.** For every `Sem` — in particular `emptyVal = true`, a
+selector without parameters is a catch-all, and any per-function guard (`subnode`: the node comes
+from a subscription) — the rules of category `c` after normalisation and `SplitRequestRules` decide
+like the written list restricted to that category.  (No side condition: since the `fix:` that makes
+an expansion to nothing a configuration error, a written selector can never turn into the catch-all.)
+What `compileMatcher` does with the rules of the category is `selCompiled` below. -/
+theorem internal_selectors_decide_as_written (S : Sem δ) (g : Geo) (c : Cat) (rs out q : Prog)
     (fb : δ) (must : Bool) (hwf : ParserWF rs) (hp : dnsPipeline g rs = some out)
-    (hs : splitCat c out = some q) (hok : ∀ E, datOpt g rs = some E → emptyOk S E = true) :
-    firstMatchAst S q fb must = firstMatchAst (userSem (withCat S c) g false) rs fb must := by
+    (hs : splitCat c out = some q) :
+    selCompiled S q fb must = firstMatchAst (userSem (withCat S c) g false) rs fb must := by
   rw [dnsPipeline_eq] at hp
   have h := pipeline_core (withCat S c) g false rs out hwf hp
-    (fun E hE => by rw [preOpt_false] at hE; exact hok E hE)
-  rw [(splitCat_spec S c out q hs h.2).1, h.1]
+  rw [selCompiled_eq, (splitCat_spec S c out q hs h.2).1, h.1]
 
 /-! ## The stages one by one (every clause of the property statement) -/
 
 /-- alias rewriting + geodata expansion (traffic): the expanded program means what was written. -/
 theorem alias_and_geodata_preserve_meaning (S : Sem δ) (g : Geo) (rs E : Prog) (fb : δ) (must : Bool)
-    (hwf : ParserWF rs) (hE : datOpt g (aliasOpt rs) = some E) (hok : emptyOk S E = true) :
+    (hwf : ParserWF rs) (hE : datOpt g (aliasOpt rs) = some E) :
     firstMatchAst S E fb must = firstMatchAst (userSem S g true) rs fb must := by
   rw [← preOpt_true] at hE
-  exact (firstMatchAst_expand S g true rs E hwf hE hok).1 fb must
+  exact (firstMatchAst_expand S g true rs E hwf hE).1 fb must
 
 /-- geodata expansion (DNS pipelines). -/
 theorem geodata_preserves_meaning (S : Sem δ) (g : Geo) (rs E : Prog) (fb : δ) (must : Bool)
-    (hwf : ParserWF rs) (hE : datOpt g rs = some E) (hok : emptyOk S E = true) :
+    (hwf : ParserWF rs) (hE : datOpt g rs = some E) :
     firstMatchAst S E fb must = firstMatchAst (userSem S g false) rs fb must := by
   have hE' : datOpt g (preOpt false rs) = some E := by rw [preOpt_false]; exact hE
-  exact (firstMatchAst_expand S g false rs E hwf hE' hok).1 fb must
+  exact (firstMatchAst_expand S g false rs E hwf hE').1 fb must
 
 /-- sorting the conditions of a rule by function name. -/
 theorem sorting_conditions_preserves_meaning (S : Sem δ) (r : Rule) :
@@ -140,6 +133,11 @@ theorem compiled_program_is_first_match (S : Sem δ) (hS : MatchSetSem S) (p : P
   cases hf : r.funcs with
   | nil => exact absurd hf (hne r hr)
   | cons _ _ => rfl
+
+/-- `daedns.compileMatcher` (catch-all for no parameters, one condition per key group, negation
+outside, `subnode` guard) is first match. -/
+theorem selector_matcher_is_first_match (S : Sem δ) (p : Prog) (fb : δ) (must : Bool) :
+    selCompiled S p fb must = firstMatchAst S p fb must := selCompiled_eq S p fb must
 
 /-- `SplitRequestRules`: the rules of one category, in order, decide like the whole list with the
 other categories' rules switched off. -/
@@ -261,12 +259,17 @@ example :
 example : dedupParams [⟨"", "a:b::c"⟩, ⟨"a", "b::c"⟩, ⟨"", "a:b::c"⟩] = [⟨"", "a:b::c"⟩, ⟨"a", "b::c"⟩] := by
   decide
 
-/-- a function left without parameters by the expansion is a build error (`fix:` 7a61f47), not a
-silently dropped condition: `dport(80) && domain(geosite:empty) -> proxy` is rejected. -/
+/-- a function left without parameters by the expansion is a configuration error, not a silently
+dropped condition: `dport(80) && domain(geosite:empty) -> proxy` is rejected by the dat stage … -/
 example :
-    (trafficPipeline exGeo [⟨[⟨"dport", false, [⟨"", "80"⟩]⟩, ⟨"domain", false, [⟨"geosite", "empty"⟩]⟩],
-        ⟨"proxy", false, []⟩⟩]).map (fun out => compiledDecision exSem out 0 false) = some none := by
+    trafficPipeline exGeo [⟨[⟨"dport", false, [⟨"", "80"⟩]⟩, ⟨"domain", false, [⟨"geosite", "empty"⟩]⟩],
+        ⟨"proxy", false, []⟩⟩] = none := by
   decide
+
+/-- … and a function without parameters that reaches `RulesBuilder.Apply` some other way is a build
+error (`fix:` 7a61f47). -/
+example : compiledDecision exSem [⟨[⟨"port", false, [⟨"", "80"⟩]⟩, ⟨"domain", false, []⟩], ⟨"proxy", false, []⟩⟩] 0 false
+    = none := by decide
 
 /-- internal selectors: a catch-all `node()` … -/
 def exSel : Sem Nat :=
@@ -275,18 +278,13 @@ def exSel : Sem Nat :=
     emptyVal := fun _ => true
     parseOut := fun _ => .final 7 }
 
-/-- **The full statement for internal selectors is false**: `node(geosite: empty) -> alidns` can
-never match as written, but its expansion is the catch-all `node()`. -/
-theorem internal_selectors_full_is_false : ¬ internal_selectors_decide_as_written_full := by
-  intro h
-  have := h exSel exGeo .node
-    [⟨[⟨"node", false, [⟨"geosite", "empty"⟩]⟩], ⟨"alidns", false, []⟩⟩]
-    [⟨[⟨"node", false, []⟩], ⟨"alidns", false, []⟩⟩]
-    [⟨[⟨"node", false, []⟩], ⟨"alidns", false, []⟩⟩] 0 false (by decide) (by decide) (by decide)
-  exact absurd this (by decide)
+/-- `node(geosite: empty) -> alidns` can never match as written; it no longer becomes the catch-all
+`node()`: the pipeline refuses it. -/
+example : dnsPipeline exGeo [⟨[⟨"node", false, [⟨"geosite", "empty"⟩]⟩], ⟨"alidns", false, []⟩⟩] = none := by
+  decide
 
-/-- … and the hypothesis of the partial theorem is satisfiable by a list that is really merged and
-split: `node(name: hk-1) -> a ; node(name: jp-2) -> a ; qname(suffix: x) -> a ; sub(tag: s) -> a`. -/
+/-- the hypotheses of `internal_selectors_decide_as_written` are satisfiable by a list that is really
+merged and split: `node(name: hk-1) -> a ; node(name: jp-2) -> a ; qname(suffix: x) -> a ; sub(tag: s) -> a`. -/
 def exSelRules : Prog :=
   [ ⟨[⟨"node", false, [⟨"name", "hk-1"⟩]⟩], ⟨"a", false, []⟩⟩,
     ⟨[⟨"node", false, [⟨"name", "jp-2"⟩]⟩], ⟨"a", false, []⟩⟩,
@@ -295,19 +293,13 @@ def exSelRules : Prog :=
 
 example : ParserWF exSelRules ∧
     (dnsPipeline exGeo exSelRules).bind (splitCat .node) =
-      some [⟨[⟨"node", false, [⟨"name", "hk-1"⟩, ⟨"name", "jp-2"⟩]⟩], ⟨"a", false, []⟩⟩] ∧
-    (∀ E, datOpt exGeo exSelRules = some E → emptyOk exSel E = true) := by
-  refine ⟨by decide, by decide, ?_⟩
-  intro E hE
-  have : datOpt exGeo exSelRules = some exSelRules := by decide
-  rw [this] at hE
-  cases hE
-  decide
+      some [⟨[⟨"node", false, [⟨"name", "hk-1"⟩, ⟨"name", "jp-2"⟩]⟩], ⟨"a", false, []⟩⟩] := by
+  exact ⟨by decide, by decide⟩
 
 /-- **Why internal selectors without parameters must not take part in merging**: with `emptyVal =
 true`, `sub() -> a ; sub(name: hk-1) -> a` (the first rule catches everything) is merged into
-`sub(name: hk-1) -> a`.  Not reachable from a configuration file (the parser rejects `sub()`), hence
-the `emptyOk` hypothesis rather than a finding. -/
+`sub(name: hk-1) -> a`.  Not reachable from a configuration file (the parser rejects `sub()`, and an
+expansion to nothing is an error), hence the `emptyOk` hypothesis of the stage theorem. -/
 theorem merge_needs_parameters_or_false_reading :
     ∃ (S : Sem Nat) (rs : Prog) (fb : Nat),
       firstMatchAst S (mergeSortOpt rs) fb false ≠ firstMatchAst S rs fb false :=
